@@ -182,11 +182,10 @@ class FromVectorMonitor(taps.Monitor):
 
 def setup(ctx):
     B = taps.mod("menpo.base")
-    taps.tap(ctx, B.Vectorizable, "as_vector", AsVectorMonitor())
-    for m, c in (("menpo.base", "Vectorizable"), ("menpo.image.base", "Image"), ("menpo.image.masked", "MaskedImage"),
-                 ("menpo.image.boolean", "BooleanImage"), ("menpo.shape.mesh.textured", "TexturedTriMesh"),
-                 ("menpo.transform.homogeneous.base", "Homogeneous")):
-        taps.tap(ctx, getattr(taps.mod(m), c), "from_vector", FromVectorMonitor())
+    # every class that defines as_vector / from_vector (discovered at run time: an override added later is monitored too)
+    o1 = taps.tap_definers(ctx, "as_vector", lambda c: AsVectorMonitor(), base=B.Vectorizable)
+    o2 = taps.tap_definers(ctx, "from_vector", lambda c: FromVectorMonitor(), base=B.Vectorizable)
+    ctx.see("tapped_from_vector_definers", sorted(c.__name__ for c in o2))
 
 
 def unit_quaternion(rng):
